@@ -151,10 +151,12 @@ package httpgrpc
 //@ func (*serverStream).SendMsg
 //@   locks_only[C05] &s.wmu
 //@   ensures[C05] after_a_failed_write_sends_report_eof_and_write_nothing: at_lock(s.writeFailed) ==> result == io.EOF && !called(writeProtoMessage)
-//@   assert_call[C01] writeProtoMessage : one_data_frame_of_the_message: arg0 == s.w && arg1 == s.codec && arg2 == m && !arg3 && s.headersSent
+//@   assert_call[C01,C02,C11] writeProtoMessage : one_data_frame_of_the_message: arg0 == s.w && arg1 == s.codec && arg2 == m && !arg3 && s.headersSent
 //@   ensures[C01] at_most_one_frame_per_send: calls(writeProtoMessage) <= 1
 //@   ensures[C02,C11] a_failed_write_is_remembered_and_returned: called(writeProtoMessage) ==> result == lastresult(writeProtoMessage) && (s.writeFailed <==> result != nil)
 //@   ensures[C03] headers_count_as_sent_after_the_first_message: !at_lock(s.writeFailed) ==> s.headersSent
+//@   ensures[C02,C11,C01] any_send_that_fails_poisons_the_reply: !at_lock(s.writeFailed) ==> (s.writeFailed <==> result != nil)
+//@   ensures[C11,C02,C04] the_reply_is_abandoned_only_after_a_failed_write: !at_lock(s.writeFailed) && s.writeFailed ==> called(writeProtoMessage) && lastresult(writeProtoMessage) != nil
 //@   modifies s.headersSent, s.writeFailed, external
 
 // ---- client.go helpers ----
@@ -242,7 +244,7 @@ package httpgrpc
 //@   ensures[C05] stream_marked_done_and_closed: cs.done && closed(cs.rCh) && !held(&cs.rMu)
 //@   ensures[C07,C02] truncated_response_is_never_a_clean_end: cs.rErr != io.EOF
 //@   ensures[C04] never_a_bare_context_error: cs.rErr != context.Canceled && cs.rErr != context.DeadlineExceeded
-//@   ensures[C02,C07] success_means_trailer_or_status_seen: cs.rErr == nil && !called("readProtoMessage") ==> cs.tr.Code != 0
+//@   ensures[C02,C07,C04] success_means_trailer_or_status_seen: cs.rErr == nil && !called("readProtoMessage") ==> cs.tr.Code != 0
 //@   assert_call[C13] getPeer : peer_from_reply_tls: arg0 == cs.baseUrl && arg1 == lastresult("http.RoundTripper.RoundTrip", 0).TLS
 //@   ensures[C13] peer_options_are_filled_once_the_reply_arrived: lastresult("http.RoundTripper.RoundTrip", 1) == nil && len(cs.copts.Peer) > 0 ==> calls("(*internal.CallOptions).SetPeer") == 1
 //@   ensures[C05] the_request_pipe_is_always_released: calls("(*io.PipeReader).CloseWithError") == 1
@@ -258,6 +260,7 @@ package httpgrpc
 //@   assert_call[C03] ioutil.ReadAll : received_trailers_went_to_the_trailer_options_first: called(readProtoMessage) && len(cs.tr.Metadata) > 0 && len(cs.copts.Trailers) > 0 ==> calls("(*internal.CallOptions).SetTrailers") == 1
 //@   assert_call[C03] (*internal.CallOptions).SetTrailers : from_the_received_trailer: arg0 == cs.copts && arg1 == lastresult(metadataFromProto) && lastarg(metadataFromProto, 0) == cs.tr.Metadata
 //@   assert_call[C04] http.RoundTripper.RoundTrip : request_carries_stream_context: arg0 == transport
+//@   ensures[C09,C03,C13] the_request_goes_out_with_the_headers_it_was_built_with: !called("(http.Header).Set") && !called("(http.Header).Add") && !called("(http.Header).Del")
 //@   assert_call[C01,C07] send : delivers_exactly_the_frame_just_read: arg0 == cs.rCh && 0 <= sz && len(arg1) == sz && sz == be32(reply_body, rd_pos(reply_body) - sz - 4) && (forall j int :: 0 <= j && j < sz ==> arg1[j] == rd_at(reply_body, rd_pos(reply_body) - sz + j))
 //@   assert_call[C07,C01,C02] readProtoMessage : trailer_size_is_negated_prefix: arg0 == reply_body && arg1 == cs.codec && sz < 0 && (sz > -2147483648 ==> arg2 == 0 - sz) && (sz == -2147483648 ==> arg2 < 0)
 //@   modifies everything
@@ -489,6 +492,7 @@ package httpgrpc
 //
 //@ func (*Server).RegisterService
 //@   requires desc != nil && s.handlers != nil
+//@   on_panic ensures[C15] a_refused_registration_leaves_earlier_ones_intact: forall k string :: has(s.handlers, k) == old(has(s.handlers, k)) && s.handlers[k] == old(s.handlers[k])
 //@   assert_call[C15,C12] (grpchan.HandlerMap).RegisterService : registry_first_so_a_refused_registration_adds_no_route: arg0 == s.handlers && arg1 == desc && arg2 == svr && !called("(*http.ServeMux).HandleFunc")
 //@   assert_call[C12,C16] handleMethod : per_method_copy_with_the_servers_interceptor: arg0 == svr && arg1 == desc.ServiceName && fresh(arg2) && arg2.MethodName == desc.Methods[rangeindex].MethodName && arg2.Handler == desc.Methods[rangeindex].Handler && arg3 == s.unaryInt && arg4 == &s.opts
 //@   assert_call[C12,C16] handleStream : per_stream_copy_with_the_servers_interceptor: arg0 == svr && arg1 == desc.ServiceName && fresh(arg2) && arg2.StreamName == desc.Streams[rangeindex#2].StreamName && arg2.Handler == desc.Streams[rangeindex#2].Handler && arg2.ClientStreams == desc.Streams[rangeindex#2].ClientStreams && arg2.ServerStreams == desc.Streams[rangeindex#2].ServerStreams && arg3 == s.streamInt && arg4 == &s.opts
